@@ -165,7 +165,7 @@ def run_probes(ctx):
         return hard, soft, quiet
 
     failing = {}
-    base_rounds = 5 if ctx.tier == "thorough" else 1
+    base_rounds = 10 if ctx.tier == "thorough" else 1
     quiet_rounds = 0
     attempts = 0
     while quiet_rounds < base_rounds and attempts < base_rounds + 6:
@@ -241,7 +241,7 @@ def shutdown_oracle(ctx, runs):
 
 def run(ctx):
     run_probes(ctx)
-    runs = q15.run_stress(ctx, prefix="c16", per_config=(4 if ctx.tier == "thorough" else 1), closer_only=True)
+    runs = q15.run_stress(ctx, prefix="c16", per_config=(12 if ctx.tier == "thorough" else 1), closer_only=True)
     shutdown_oracle(ctx, runs)
     gen = (COQ / "gen" / "ConstsQueue.v").read_text()
     for name in re.findall(r"Definition (\w+) : bool := false", gen):
